@@ -8,6 +8,7 @@
 
 #include "common/harness.h"
 #include "common/ledger.h"
+#include "common/checked.h"
 #include "common/leak.h"
 
 #include <chrono>
@@ -72,13 +73,16 @@ struct ISubject
 struct PolEx { using ArgumentPassingMode = eventpp::ArgumentPassingExcludeEvent; };
 struct PolExFilter { using ArgumentPassingMode = eventpp::ArgumentPassingExcludeEvent; using Mixins = eventpp::MixinList<eventpp::MixinFilter>; };
 using HL = eventpp::HeterTuple<void (int), void (const std::string &)>;
-struct PolHeterFilter { using Mixins = eventpp::MixinList<eventpp::MixinHeterFilter>; };
+// the heterogeneous dispatcher and queue run on the owner-tracking mutex: a second lock of a mutex by its owner (copying,
+// assigning or swapping an object with itself must not do that) is reported instead of hanging
+struct PolHeterFilter { using Mixins = eventpp::MixinList<eventpp::MixinHeterFilter>; using Threading = CheckedThreading; };
+struct PolHeterChecked { using Threading = CheckedThreading; };
 
 using TDisp = eventpp::EventDispatcher<int, void (int), PolExFilter>;
 using TQueue = eventpp::EventQueue<int, void (int), PolExFilter>;
 using THList = eventpp::HeterCallbackList<HL>;
 using THDisp = eventpp::HeterEventDispatcher<int, HL, PolHeterFilter>;
-using THQueue = eventpp::HeterEventQueue<int, HL>;
+using THQueue = eventpp::HeterEventQueue<int, HL, PolHeterChecked>;
 
 const std::string kStr = "a string argument that does not fit the small buffer";
 
